@@ -111,12 +111,29 @@ def gen_call(rng, labs):
     return {"rel": rel, "P": G.jraw(P), "lam": [lam.numerator, lam.denominator], "log": log, "bounds": jb}
 
 
+def later_unary_form(rng, labs, spin=False):
+    """sum of positive multiples of variables <= k with unary slack (log_trick=False): the shortcut that creates its own
+    ancillas -- as a later call of a sequence it must continue the numbering of the earlier constraints"""
+    ls = rng.sample(labs, rng.randint(1, min(3, len(labs))))
+    cs = [rng.choice([1, 1, 2]) for _ in ls]
+    if spin:
+        k = rng.randint(1, 2 * sum(cs) - 1)
+        P = [((l,), F(-c)) for l, c in zip(ls, cs)] + [((), F(sum(cs) - k))]     # boolean image: sum 2c x - k
+    else:
+        k = rng.randint(1, max(1, sum(cs) - 1))
+        P = [((l,), F(c)) for l, c in zip(ls, cs)] + [((), F(-k))]
+    lam = rng.choice([F(1), F(2), F(1, 2)])
+    return {"rel": "le", "P": G.jraw(P), "lam": [lam.numerator, lam.denominator], "log": False, "bounds": None}
+
+
 def gen(rng, i, tier):
     uni = rng.choice(['int', 'pool'])
     labs = G.labels(rng, uni, rng.randint(2, 5))
     obj = random_poly(rng, labs) if rng.random() < 0.3 else []
-    return {"obj": G.jraw(obj), "calls": [gen_call(rng, labs) for _ in range(rng.choice([1, 1, 1, 2, 3]))],
-            "touch": rng.choice([None, None, "refresh", "copy"])}
+    calls = [gen_call(rng, labs) for _ in range(rng.choice([1, 1, 1, 2, 3]))]
+    if len(calls) >= 2 and rng.random() < 0.35:
+        calls[-1] = later_unary_form(rng, labs)
+    return {"obj": G.jraw(obj), "calls": calls, "touch": rng.choice([None, None, "refresh", "copy"])}
 
 
 def observe(H, w):
